@@ -177,3 +177,30 @@ func VerifRunFrameOrder() {
 	vAssert("cpu-progress", gb.cpu.VerifPC() == 0x100+10+(17556-13))
 	vReach("end")
 }
+
+// C24 (frame level): two emulators built from the same image run one whole frame each: registers, clocks, frame and
+// cartridge RAM agree. (Concrete program; the divider phase is symbolic.)
+func VerifTwinFrame() {
+	vTwinBegin()
+	var gbs [2]*Gameboy
+	for k := 0; k < 2; k++ {
+		img := verifNopImage()
+		prog := []byte{0x3e, 0x11, 0xe0, 0x40, 0x3e, 0x91, 0xe0, 0x40, 0xe0, 0x04, 0x3e, 0x77, 0xea, 0x00, 0xc0, 0xe0, 0x01}
+		for i, b := range prog {
+			img[0x100+i] = b
+		}
+		gb := newVerifGameboy(img, false, false)
+		gb.timer.VerifSetCounter(vU16("counter"))
+		gb.runFrame(newVerifCtx(0))
+		gbs[k] = gb
+	}
+	a, b := gbs[0], gbs[1]
+	vAssert("same-registers", a.cpu.VerifRegs() == b.cpu.VerifRegs() && a.cpu.VerifPC() == b.cpu.VerifPC() && a.cpu.VerifSP() == b.cpu.VerifSP())
+	vAssert("same-clocks", a.timer.VerifCounter() == b.timer.VerifCounter() && a.ppu.VerifTicks() == b.ppu.VerifTicks() && a.audio.VerifTicks() == b.audio.VerifTicks() && a.mapper.VerifRtcTicks() == b.mapper.VerifRtcTicks())
+	q := vU16("addr")
+	vAssert("same-memory", a.mapper.Read(q) == b.mapper.Read(q))
+	px := vInt("px")
+	vAssume(px >= 0 && px < 160*144*4)
+	vAssert("same-frame", a.ppu.Frame().Pix[px] == b.ppu.Frame().Pix[px])
+	vReach("end")
+}
